@@ -383,14 +383,33 @@ func (e *Engine) typeTest(x Val, t types.Type) string {
 
 // ---------- channels ----------
 
-func (e *Engine) chanClosed(st *State, ch string) string {
-	arr := e.heapArr(st, "chanclosed", arraySort(SU, SBool))
-	return mkSelect(arr, ch)
+// Channel closed-ness is tracked per channel class (the field or variable a channel is reached through), so that a
+// close of one kind of channel says nothing about the others.
+func (e *Engine) chanClosedArr(st *State, cls string) string {
+	name := sanitize("chanclosed!" + cls)
+	if _, ok := st.heap[name]; !ok {
+		arr := e.heapArr(st, name, arraySort(SU, SBool))
+		for _, id := range st.freshChans {
+			st.assume(mkNot(mkSelect(arr, id)))
+		}
+		return arr
+	}
+	return e.heapArr(st, name, arraySort(SU, SBool))
 }
 
-func (e *Engine) setChanClosed(st *State, ch string, v string) {
-	arr := e.heapArr(st, "chanclosed", arraySort(SU, SBool))
-	e.setHeapArr(st, "chanclosed", arraySort(SU, SBool), mkStore(arr, ch, v))
+func (e *Engine) chanClosed(st *State, ch string, cls string) string {
+	if cls == "" {
+		cls = "?"
+	}
+	return mkSelect(e.chanClosedArr(st, cls), ch)
+}
+
+func (e *Engine) setChanClosed(st *State, ch string, cls string, v string) {
+	if cls == "" {
+		cls = "?"
+	}
+	arr := e.chanClosedArr(st, cls)
+	e.setHeapArr(st, sanitize("chanclosed!"+cls), arraySort(SU, SBool), mkStore(arr, ch, v))
 }
 
 // ---------- the executor ----------
@@ -723,7 +742,13 @@ func (e *Engine) execSimple(st *State, fr *Frame, ins ssa.Instruction) {
 	case *ssa.MakeChan:
 		id := e.smt.Fresh("chan", SU)
 		st.assume(mkNot(mkEq(id, "nil")))
-		e.setChanClosed(st, id, "false")
+		st.freshChans = append(append([]string{}, st.freshChans...), id)
+		for n := range st.heap {
+			if strings.HasPrefix(n, "chanclosed!") {
+				arr := e.heapArr(st, n, arraySort(SU, SBool))
+				st.assume(mkNot(mkSelect(arr, id)))
+			}
+		}
 		e.smt.Declare("chancap", []string{SU}, SInt)
 		st.assume(mkEq(mkApp("chancap", id), e.get(st, fr, x.Size).term()))
 		v := Val{T: x.Type(), L: []string{id}}
@@ -759,12 +784,19 @@ func (e *Engine) execSimple(st *State, fr *Frame, ins ssa.Instruction) {
 		m := e.get(st, fr, x.X)
 		fr.iterMap[x] = m
 		fr.regs[x] = Val{T: x.Type(), L: []string{"nil"}}
+		if mt, ok := m.T.Underlying().(*types.Map); ok {
+			_, _, _, _, ksort := e.mapArrays(st, mt)
+			name := "rangevisited!" + sanitize(typeKey(mt.Key())) + "!" + x.Name() + "!" + sanitize(fr.fn.Name())
+			e.heapArr(st, name, arraySort(ksort, SBool))
+			e.setHeapArr(st, name, arraySort(ksort, SBool), fmt.Sprintf("((as const %s) false)", arraySort(ksort, SBool)))
+		}
 	case *ssa.Next:
 		fr.regs[x] = e.next(st, fr, x)
 	case *ssa.Send:
 		ch := e.get(st, fr, x.Chan)
 		v := e.get(st, fr, x.X)
 		e.siteEvent(st, fr, "send", e.describe(x.Chan), map[string]Val{"$chan": ch, "$val": v}, x.Pos())
+		e.chanInv(st, fr, x.Chan, v, true, "", x.Pos())
 		e.checkSendClosed(st, x.Chan, ch, x.Pos())
 	default:
 		e.abstracted[fmt.Sprintf("%T", ins)]++
@@ -843,7 +875,9 @@ func (e *Engine) unop(st *State, fr *Frame, x *ssa.UnOp) Val {
 		elem := ch.T.Underlying().(*types.Chan).Elem()
 		v := e.freshVal(st, elem, "recv")
 		okT := e.smt.Fresh("recvok", SBool)
-		e.recvFacts(st, ch, okT)
+		e.recvFactsFor(st, x.X, ch, okT)
+		e.neverClosedRecv(st, x.X, okT)
+		e.chanInv(st, fr, x.X, v, false, okT, x.Pos())
 		e.siteEvent(st, fr, "recv", e.describe(x.X), map[string]Val{"$chan": ch, "$val": v, "$ok": boolVal(okT)}, x.Pos())
 		if x.CommaOk {
 			out := Val{T: x.Type(), L: append(append([]string{}, v.L...), okT)}
@@ -865,8 +899,12 @@ func (e *Engine) assumeLoadInv(st *State, v Val) {
 		case "cap":
 			st.assume(mkCmp(">=", v.L[i], v.L[i-1]))
 		case "":
-			if l.Sort == SInt && isUnsigned(l.T) {
-				st.assume(mkCmp(">=", v.L[i], "0"))
+			if l.Sort == SInt {
+				if lo, hi, ok := intRange(l.T); ok {
+					if _, isLit := intLit(v.L[i]); !isLit {
+						st.assume(mkAnd(mkCmp(">=", v.L[i], lo), mkCmp("<=", v.L[i], hi)))
+					}
+				}
 			}
 			if l.Sort == SU && isString(l.T) {
 				st.assume(mkNot(mkEq(v.L[i], "nil")))
@@ -1302,7 +1340,9 @@ func (e *Engine) execSelect(st *State, fr *Frame, x *ssa.Select, b *ssa.BasicBlo
 					for k := range v.L {
 						out.L = append(out.L, mkIte(okT, v.L[k], zero.L[k]))
 					}
-					e.recvFacts(s2, cases[j].ch, okT)
+					e.recvFactsFor(s2, s.Chan, cases[j].ch, okT)
+					e.neverClosedRecv(s2, s.Chan, okT)
+					e.chanInv(s2, fr, s.Chan, v, false, okT, x.Pos())
 					e.siteEvent(s2, fr, "recv", e.describe(s.Chan), map[string]Val{"$chan": cases[j].ch, "$val": v, "$ok": boolVal(okT)}, x.Pos())
 				} else {
 					out.L = append(out.L, e.zeroVal(et).L...)
@@ -1313,6 +1353,7 @@ func (e *Engine) execSelect(st *State, fr *Frame, x *ssa.Select, b *ssa.BasicBlo
 				s2.assume(mkNot(mkEq(cases[idx].ch.term(), "nil")))
 				if x.States[idx].Dir == types.SendOnly {
 					e.siteEvent(s2, fr, "send", e.describe(x.States[idx].Chan), map[string]Val{"$chan": cases[idx].ch, "$val": cases[idx].send}, x.Pos())
+					e.chanInv(s2, fr, x.States[idx].Chan, cases[idx].send, true, "", x.Pos())
 					e.checkSendClosed(s2, x.States[idx].Chan, cases[idx].ch, x.Pos())
 				}
 			}
@@ -1324,9 +1365,25 @@ func (e *Engine) execSelect(st *State, fr *Frame, x *ssa.Select, b *ssa.BasicBlo
 }
 
 // recvFacts: a successful receive from an unbuffered channel means the channel was not closed at that instant.
+// neverClosedRecv: a receive from a channel class that the module never closes always yields a sent value.
+func (e *Engine) neverClosedRecv(st *State, chv ssa.Value, okT string) {
+	cls := e.chanClass(chv)
+	cc := e.closedChanClasses()
+	if cls != "" && !cc[cls] && !cc["?"] && okT != "false" && okT != "true" {
+		st.assume(okT)
+	}
+}
+
+func (e *Engine) recvFactsFor(st *State, chv ssa.Value, ch Val, okT string) {
+	// a successful receive from an unbuffered channel means the channel was not closed at that instant
+	cls := e.chanClass(chv)
+	e.smt.Declare("chancap", []string{SU}, SInt)
+	st.assume(mkImp(mkAnd(okT, mkEq(mkApp("chancap", ch.term()), "0")), mkNot(e.chanClosed(st, ch.term(), cls))))
+}
+
 func (e *Engine) recvFacts(st *State, ch Val, okT string) {
 	e.smt.Declare("chancap", []string{SU}, SInt)
-	st.assume(mkImp(mkAnd(okT, mkEq(mkApp("chancap", ch.term()), "0")), mkNot(e.chanClosed(st, ch.term()))))
+	_ = okT
 }
 
 // ---------- go ----------
@@ -1350,7 +1407,11 @@ func (e *Engine) execGo(st *State, fr *Frame, x *ssa.Go) {
 		if tf == nil {
 			tf = e.fns[c.Func]
 		}
-		e.checkRequires(st, fr, c, tf, args, x.Pos(), "go")
+		var bind []Val
+		if r := callee.ref(0); r != nil {
+			bind = r.Bind
+		}
+		e.checkRequiresB(st, fr, c, tf, args, bind, x.Pos(), "go")
 	}
 	// cells reachable by the goroutine become shared: havoc those it may write
 	e.escapeClosure(st, callee, map[*ssa.Function]bool{})
@@ -1519,5 +1580,28 @@ func (e *Engine) checkSendClosed(st *State, chv ssa.Value, ch Val, pos token.Pos
 		e.neverClosedSends[cls]++
 		return
 	}
-	e.safety(st, "assert", "send-on-closed:"+e.describe(chv), mkNot(e.chanClosed(st, ch.term())), pos)
+	e.safety(st, "assert", "send-on-closed:"+e.describe(chv), mkNot(e.chanClosed(st, ch.term(), cls)), pos)
+}
+
+// chanInv: a declared channel invariant is an obligation at every send and an assumption after every successful receive.
+func (e *Engine) chanInv(st *State, fr *Frame, chv ssa.Value, v Val, send bool, okT string, pos token.Pos) {
+	cls := e.chanClass(chv)
+	cl, ok := e.spec.ChanInvs[cls]
+	if !ok {
+		return
+	}
+	env := &Env{e: e, st: st, old: e.entryOf(fr), fr: fr, site: map[string]Val{"$val": v}, pkg: fr.fn.Pkg.Pkg}
+	t, err := e.EvalBool(env, cl.E)
+	if err != nil {
+		e.specError(fr, "channel invariant of %s: %v", cls, err)
+		return
+	}
+	if send {
+		e.oblige(st, "chaninv", cls+":"+cl.Label, t, cl.Tags, pos)
+		return
+	}
+	if okT == "" {
+		okT = "true"
+	}
+	st.assume(mkImp(okT, t))
 }
